@@ -1,0 +1,14 @@
+//go:build verif
+
+package meta
+
+// Contract for the len helper (C19/C04), checked by /verif/bin/plushvc. Comment-only.
+
+//@ pred haslen(k int) = k == 17 || k == 18 || k == 21 || k == 23 || k == 24
+
+//@ func Len
+//@ ensures nilv: v == nil ==> result == 0
+//@ ensures direct: v != nil && haslen(kindof(dyn(v))) ==> result == rvLen(rvOf(v))
+//@ ensures viaptr: v != nil && kindof(dyn(v)) == 22 && haslen(rvKind(rvElem(rvOf(v)))) ==> result == rvLen(rvElem(rvOf(v)))
+//@ ensures other: v != nil && !haslen(kindof(dyn(v))) && !(kindof(dyn(v)) == 22 && haslen(rvKind(rvElem(rvOf(v))))) ==> result == 0
+//@ assigns nothing
